@@ -27,6 +27,7 @@ package cache
 // refreshOrder moves key to the most-recently-used end (inserting it if it
 // was absent); every other key keeps its relative position.
 //@ func (*LRUCache).refreshOrder
+//@   chain
 //@   requires l != nil && noDup(l) && len(l.order) < 4611686018427387904
 //@   ensures len(l.order) >= 1 && l.order[len(l.order)-1] == key
 //@   ensures (forall i :: 0 <= i && i < len(old(l.order)) ==> old(l.order[i]) != key) ==> len(l.order) == len(old(l.order)) + 1 && (forall i :: 0 <= i && i < len(old(l.order)) ==> l.order[i] == old(l.order[i]))
@@ -37,3 +38,42 @@ package cache
 //@   assigns l.order, l.order[*]
 //@   loop 0: invariant 0 <= i && i <= len(l.order) && l.order == old(l.order)
 //@   loop 0: invariant forall j :: 0 <= j && j < i ==> l.order[j] != key
+
+// Get: a hit returns the cached value and moves the key to the MRU end.
+//@ func (*LRUCache).Get
+//@   chain
+//@   requires wfLRU(l) && len(l.order) < 4611686018427387904
+//@   ensures result1 == old(key in l.cache)
+//@   ensures result1 ==> result == old(l.cache[key]) && l.order[len(l.order)-1] == key && len(l.order) == len(old(l.order))
+//@   ensures !result1 ==> l.order == old(l.order)
+//@   ensures forall p, i :: result1 && 0 <= p && p < len(old(l.order)) && old(l.order[p]) == key && 0 <= i && i < p ==> l.order[i] == old(l.order[i])
+//@   ensures forall p, i :: result1 && 0 <= p && p < len(old(l.order)) && old(l.order[p]) == key && p <= i && i < len(l.order) - 1 ==> l.order[i] == old(l.order[i+1])
+//@   ensures noDup(l)
+//@   assigns l.order, l.order[*]
+
+// Find returns the least-recently-used key among `keys` and marks it most
+// recently used.
+//@ func (*LRUCache).Find
+//@   chain
+//@   requires wfLRU(l) && len(l.order) < 4611686018427387904
+//@   ensures result1 == (exists i, j :: 0 <= i && i < len(old(l.order)) && 0 <= j && j < len(keys) && old(l.order[i]) == keys[j])
+//@   ensures forall p :: result1 && 0 <= p && p < len(old(l.order)) && (exists j :: 0 <= j && j < len(keys) && old(l.order[p]) == keys[j]) && (forall q :: 0 <= q && q < p ==> !(exists j :: 0 <= j && j < len(keys) && old(l.order[q]) == keys[j])) ==> result == old(l.order[p])
+//@   ensures result1 ==> l.order[len(l.order)-1] == result && len(l.order) == len(old(l.order))
+//@   ensures !result1 ==> l.order == old(l.order)
+//@   ensures noDup(l)
+//@   assigns l.order, l.order[*]
+//@   loop 0: invariant l.order == old(l.order)
+//@   loop 0: invariant forall q :: 0 <= q && q < _idx0 ==> !(exists j :: 0 <= j && j < len(keys) && l.order[q] == keys[j])
+
+// Put: a new key into a full cache evicts the least recently used key
+// (order[0]); the key becomes most recently used.
+//@ func (*LRUCache).Put
+//@   chain
+//@   requires wfLRU(l) && len(l.order) < 4611686018427387904 && (len(l.cache) == l.capacity && !(key in l.cache) ==> l.capacity > 0)
+//@   ensures key in l.cache && l.cache[key] == value
+//@   ensures l.order[len(l.order)-1] == key
+//@   ensures old(!(key in l.cache) && len(l.cache) == l.capacity) ==> !(old(l.order[0]) in l.cache) || old(l.order[0]) == key
+//@   ensures old(!(key in l.cache) && len(l.cache) == l.capacity) ==> len(l.order) == len(old(l.order)) && (forall i :: 0 <= i && i < len(l.order) - 1 ==> l.order[i] == old(l.order[i+1]))
+//@   ensures forall k K :: k != key && !(old(!(key in l.cache) && len(l.cache) == l.capacity) && k == old(l.order[0])) ==> (k in l.cache) == old(k in l.cache) && l.cache[k] == old(l.cache[k])
+//@   ensures noDup(l)
+//@   assigns l.order, l.order[*], l.cache[*]
